@@ -58,7 +58,7 @@ def gen_case(rng, big=False):
     trades = []      # abstract trades, later packed into files
     nb = rng.choice([1, 1, 2, 2, 2, 3, 3, 4])
     if big:
-        nb = rng.choice([1, 2])
+        nb = 1
     small = rng.random() < 0.5      # small share counts => many coinciding sums
     award = rng.randint(10000, 99990)
     grantno = rng.randint(1000, 9000)
@@ -134,6 +134,9 @@ def gen_case(rng, big=False):
             qty = rng.randint(1, 12) if small else rng.randint(1, 60)
         act = "Sell" if rng.random() < 0.85 else "Buy"
         trades.append(mk_trade(rng, sym, td, qty, money(rng, 40, 220, rng.choice([2, 3, 4])), act=act))
+    # the search is exponential in the number of candidate sales of one benefit
+    # (2^n - 1 sets, in the code and in the model alike): keep n <= 14
+    del trades[12:]
     if trades and rng.random() < 0.25:
         # a sale identical in every printed figure to another one
         trades.append(copy.deepcopy(rng.choice(trades)))
